@@ -550,8 +550,9 @@ Definition parse_canon : str -> option jv := gparse pstr_canon false.
 (* ------------------------------------------------------------------ *)
 (* the DSSE payload *)
 
-(* no control character in any string or key: exactly when the canonical form
-   is valid JSON (proofs/JsonProofs.v) *)
+(* no control character in any string or key.  json.Valid of the canonical form
+   equals this predicate on the normal form (proofs/JsonRoundTrip.v, json_valid_canon);
+   the model below calls the scanner itself, as the Go code does *)
 Fixpoint json_valid_strings (v : jv) : bool :=
   match v with
   | JStr s => no_ctrl s
